@@ -27,6 +27,7 @@ func checkC14(p *Prog, r *Report) {
 	rErr := r.Rule("exit-status-returned", "Wait's error is what Go returns")
 	rIn := r.Rule("stdin-unchanged", "SetInput stores its reader into cmd.Stdin unchanged")
 	checkC14Wrappers(p, r, r.Rule("wrappers-pass-through", "a reader which the implant's own code puts between the transport and the command (a counter, a meter) hands on exactly what its inner Read returned: data which arrives together with the end of the stream is not dropped"))
+	checkC14HandedOnBuffers(p, r, r.Rule("buffers-not-refilled", "a reader of the implant which fills a fixed set of buffers in turn and hands the filled slices over a channel has at least capacity+2 buffers (one with the consumer, those queued, one being filled)"))
 	checkC14SessionUnbounded(p, r, r.Rule("session-unbounded", "nothing in lib/simpleshell puts a clock on the whole exchange (http.Client.Timeout covers reading the response body, i.e. the input stream, and sending the request body, i.e. the output stream)"))
 
 	/* The output writer is the *io.PipeWriter CmdShell holds (directly or in
